@@ -124,7 +124,7 @@ pub fn check_step(i: &StepIn, o: &StepOut) -> Option<(String, String)> {
     None
 }
 
-fn gen_case(r: &mut R) -> StepIn {
+pub fn gen_case(r: &mut R) -> StepIn {
     let liquidity = match r.gen_range(0..20) {
         0 => 0,
         1 => 1,
@@ -152,6 +152,25 @@ fn gen_case(r: &mut R) -> StepIn {
         _ => rnd::sqrt_price(r),
     }
     .clamp(MIN_SQRT_PRICE_X64, MAX_SQRT_PRICE_X64);
+    // one case in ten: the liquidity at which the whole segment costs 2^64 +- a little in token A or in
+    // token B (the 64-bit boundary of the amount functions, with and without a remainder)
+    let liquidity = if pt != p0 && r.gen_range(0..10) == 0 {
+        let dp = bu(p0.abs_diff(pt));
+        let l = if r.gen() { (bu(p0) * bu(pt)) / &dp } else { (BigUint::from(1u8) << 128) / &dp };
+        match num_traits::ToPrimitive::to_u128(&l) {
+            Some(l) => match r.gen_range(0..6) {
+                0 => l,
+                1 => l.saturating_add(1),
+                2 => l.saturating_sub(1),
+                3 => l.saturating_add(r.gen_range(0..1u128 << 20)),
+                4 => l.saturating_sub(r.gen_range(0..1u128 << 20)),
+                _ => l / 2,
+            },
+            None => liquidity,
+        }
+    } else {
+        liquidity
+    };
     let a_to_b = if pt == p0 { r.gen() } else { pt < p0 };
     let exact_in: bool = r.gen();
     let rate: u32 = match r.gen_range(0..10) {
@@ -195,7 +214,7 @@ fn gen_case(r: &mut R) -> StepIn {
 
 pub fn run(tier: Tier, seed: u64) -> i32 {
     let mut rep = Report::new("C02", tier, seed);
-    rep.rule = "random compute_swap inputs (liquidity log-uniform over all 128 bit lengths, prices log-uniform in bounds + MIN/MAX/+-1/+-2^k/one-tick/far targets, fee rates incl. 0,1,60000,100000, amounts incl. the exact segment cost +-1,2 and u64::MAX); every Ok result checked against exact rational curve amounts, safe-side price rounding, budget consumption and fee formula. distinct = (mode, direction, liquidity bit-length/8, outcome: target/partial/error-kind, price path, fee class)".into();
+    rep.rule = "random compute_swap inputs (liquidity log-uniform over all 128 bit lengths, prices log-uniform in bounds + MIN/MAX/+-1/+-2^k/one-tick/far targets, one case in ten with the liquidity at which the segment costs 2^64 +- a little in token A or B, fee rates incl. 0,1,60000,100000, amounts incl. the exact segment cost +-1,2 and u64::MAX); every Ok result checked against exact rational curve amounts, safe-side price rounding, budget consumption and fee formula. distinct = (mode, direction, liquidity bit-length/8, outcome: target/partial/error-kind, price path, fee class)".into();
     rep.assumptions = vec![
         "errors returned by the program are not constrained (only successful computations are)".into(),
         "native build with overflow-checks=false (release profile of /repo)".into(),
@@ -207,7 +226,19 @@ pub fn run(tier: Tier, seed: u64) -> i32 {
         let mut acc = Acc::default();
         for k in 0..n / shards as u64 {
             let c = gen_case(&mut r);
-            let res = compute_swap(c.amount, c.rate, c.liquidity, c.p0, c.pt, c.exact_in, c.a_to_b);
+            // a panic inside the program aborts the transaction on chain: an unsuccessful computation, which the
+            // property does not constrain; it is counted and a sample is kept as an observation
+            let res = match crate::svm::quiet_catch(|| compute_swap(c.amount, c.rate, c.liquidity, c.p0, c.pt, c.exact_in, c.a_to_b)) {
+                Ok(r) => r,
+                Err(msg) => {
+                    acc.evaluations += 1;
+                    acc.count("program_panicked");
+                    if acc.get("program_panicked") <= 1 && _shard < 3 {
+                        acc.notes.push(format!("OBSERVATION compute_swap panicked ({msg}) on {}", step_json(&c, None)));
+                    }
+                    continue;
+                }
+            };
             acc.evaluations += 1;
             let lb = rnd::bitlen(c.liquidity) / 8;
             let fc = match c.rate { 0 => "r0", 1..=59_999 => "rmid", 60_000 => "r6", 100_000 => "r10", _ => "rhi" };
